@@ -25,7 +25,7 @@ namespace Unyt.Ufunc
 /-- the unit-rule functions of unyt/array.py:179-291 -/
 inductive Rule
   | preserve | difference | multiply | divide | returnWithoutUnit | passthrough | power
-  | sqrt | cbrt | square | reciprocal | arctan2 | comparison | invert | bitop
+  | sqrt | cbrt | square | reciprocal | arctan2 | comparison | invert | bitop | floorDivide
   | other (fn : String)
 deriving DecidableEq, Repr, Inhabited
 
@@ -38,6 +38,7 @@ def Rule.ofName (s : String) : Rule :=
   else if s = "_square_unit" then .square else if s = "_reciprocal_unit" then .reciprocal
   else if s = "_arctan2_unit" then .arctan2 else if s = "_comparison_unit" then .comparison
   else if s = "_invert_units" then .invert else if s = "_bitop_units" then .bitop
+  else if s = "_floor_divide_units" then .floorDivide
   else .other s
 
 def Rule.str : Rule → String
@@ -45,13 +46,19 @@ def Rule.str : Rule → String
   | .divide => "divide" | .returnWithoutUnit => "return_without_unit"
   | .passthrough => "passthrough" | .power => "power" | .sqrt => "sqrt" | .cbrt => "cbrt"
   | .square => "square" | .reciprocal => "reciprocal" | .arctan2 => "arctan2"
-  | .comparison => "comparison" | .invert => "invert" | .bitop => "bitop" | .other s => "other:" ++ s
+  | .comparison => "comparison" | .invert => "invert" | .bitop => "bitop"
+  | .floorDivide => "floor_divide" | .other s => "other:" ++ s
 
 /-- the rules for which `__array_ufunc__` enters the dimension check
     (`unit_operator in (_preserve_units, _comparison_unit, _arctan2_unit, _difference_units)`) -/
 def Rule.checked : Rule → Bool
   | .preserve | .comparison | .arctan2 | .difference => true
   | _ => false
+
+/-- the rules under which the dispatcher enters the "rescale the second operand" block: the four
+    checked ones and `_floor_divide_units` — which gets there only with commensurable operands
+    (on a dimension mismatch it has been replaced by `_divide_units` just before) -/
+def Rule.rescales (r : Rule) : Bool := r.checked || r == .floorDivide
 
 /-- everything `__array_ufunc__` reads from module-level tables; ufuncs are identified by `__name__` -/
 structure Tables where
@@ -165,7 +172,8 @@ structure Call (K : Type) where
   method : Method := .call
   inputs : List (Operand K)
   out : OutSpec := .none
-  /-- `in_shape[axis]` when `axis=` is given (read by the multiply/divide reduction only) -/
+  /-- `in_shape[axis]` (axis defaults to 0); `none` = an explicit `axis=None`: the whole size
+      (read by the multiply/divide reduction only) -/
   axisLen : Option Nat := none
   /-- NumPy's own refusal of the stripped call (the kernel is a parameter of the model) -/
   kernelErr : Option Err := none
@@ -330,7 +338,7 @@ def applyRule1 (C : Ctx K) (r : Rule) (u : UnitR K) : Except Err (K × Option (U
   | .square => (u.v.mul u.v).map fun x => (1, some x)
   | .reciprocal => (u.v.pow (-1)).map fun x => (1, some x)
   -- two-argument rule functions called with one argument, and the refusing ones: TypeError
-  | .multiply | .divide | .power | .arctan2 | .bitop | .invert => .error .TypeError
+  | .multiply | .divide | .power | .arctan2 | .bitop | .invert | .floorDivide => .error .TypeError
   | .other _ => .error .Other
 
 /-- the rule function called with two units -/
@@ -343,6 +351,9 @@ def applyRule2 (C : Ctx K) (r : Rule) (u0 u1 : UnitR K) : Except Err (K × Optio
   | .arctan2 => .ok (1, some (UnitR.null : UnitR K).v)
   | .multiply => (u0.v.mul u1.v).map fun x => let s := C.simp x; (s.1, some s.2)
   | .divide => (u0.v.div u1.v).map fun x => let s := C.simp x; (s.1, some s.2)
+  -- `_floor_divide_units`: dividing the units refuses offset / logarithmic operands; the floored
+  -- ratio of two commensurable quantities is a pure number
+  | .floorDivide => (u0.v.div u1.v).map fun _ => (1, some (UnitR.null : UnitR K).v)
   | .power | .sqrt | .cbrt | .square | .reciprocal | .bitop | .invert => .error .TypeError
   | .other _ => .error .Other
 
@@ -550,7 +561,9 @@ def stdBinary (C : Ctx K) (c : Call K) (rule : Rule) (i0 i1 : Operand K)
   if rule == .preserve && isTemperature u0.v && u1.v.offset != 0 && u0.v.offset == 0
       && (u0.repr == "K" || u0.repr == "R") then ⟨eff0, .error .UnitOperationError⟩
   else
-    let chk : Check K := if rule.checked then commensurate C rule c.ufunc i0 i1 u0 u1 else .pass u0 u1 false
+    -- floor division of operands of different dimensions: the plain quotient rule
+    let rule : Rule := if rule == .floorDivide && u0.v.dim != u1.v.dim then .divide else rule
+    let chk : Check K := if rule.rescales then commensurate C rule c.ufunc i0 i1 u0 u1 else .pass u0 u1 false
     match chk with
     | .refuse => ⟨eff0, .error .UnitOperationError⟩
     | .early b =>
